@@ -78,8 +78,9 @@ var c15Parsers = []url.Parser{
 	url.NewParser(url.WithReportValidationErrors()),
 	url.NewParser(url.WithFailOnValidationError()),
 	url.NewParser(url.WithReportValidationErrors(), url.WithFailOnValidationError()),
+	url.NewParser(url.WithFailOnValidationError(), url.WithReportValidationErrors()), // "both", options given in the other order
 }
-var c15Names = []string{"default", "reporting", "fail-on-validation-error", "reporting+fail"}
+var c15Names = []string{"default", "reporting", "fail-on-validation-error", "reporting+fail", "fail+reporting"}
 
 func (m c15) Run(ctx *core.Ctx) {
 	L := 5
@@ -240,10 +241,10 @@ func (m c15) Exec(ctx *core.Ctx, cs *core.Case) {
 	}
 	input, base := string(cs.Input), string(cs.Base)
 	hasBase := cs.HasBase && base != ""
-	var us [4]*url.Url
-	var errs [4]error
-	var snaps [4]obs.Snap
-	var ok [4]bool
+	var us [5]*url.Url
+	var errs [5]error
+	var snaps [5]obs.Snap
+	var ok [5]bool
 	repeat := len(input)%4 == 2
 	for i, p := range c15Parsers {
 		var pan *core.Panic
@@ -266,7 +267,7 @@ func (m c15) Exec(ctx *core.Ctx, cs *core.Case) {
 	if ok[1] {
 		entries = us[1].ValidationErrors()
 	}
-	if ok[0] || ok[1] || ok[2] || ok[3] || len(entries) > 0 {
+	if ok[0] || ok[1] || ok[2] || ok[3] || ok[4] || len(entries) > 0 {
 		ctx.Nontrivial()
 	}
 	if ok[0] {
@@ -286,7 +287,7 @@ func (m c15) Exec(ctx *core.Ctx, cs *core.Case) {
 		ctx.Violate("turning on validation-error reporting changed the result", snaps[0].Href, snaps[1].Href, strings.Join(obs.Diff(snaps[0], snaps[1]), "; "))
 		return
 	}
-	for _, i := range []int{2, 3} {
+	for _, i := range []int{2, 3, 4} {
 		if ok[i] && !ok[0] {
 			ctx.Violate("fail-on-validation-error mode accepts what the default parser rejects", errString(errs[0]), snaps[i].Href, c15Names[i])
 			return
@@ -298,7 +299,7 @@ func (m c15) Exec(ctx *core.Ctx, cs *core.Case) {
 	}
 	if !hasBase {
 		clean := ok[1] && len(entries) == 0
-		for _, i := range []int{2, 3} {
+		for _, i := range []int{2, 3, 4} {
 			if ok[i] != clean {
 				ctx.Violate("fail-on-validation-error mode does not accept exactly the inputs for which reporting mode records nothing",
 					clean, ok[i], c15Names[i]+": reporting ok="+strconv.FormatBool(ok[1])+" entries="+strconv.Itoa(len(entries))+" first="+firstErr(entries)+" failerr="+errString(errs[i]))
@@ -320,7 +321,7 @@ func (m c15) Exec(ctx *core.Ctx, cs *core.Case) {
 			ctx.Count("errors_classified")
 		}
 	}
-	for _, i := range []int{2, 3} {
+	for _, i := range []int{2, 3, 4} {
 		if errs[i] != nil {
 			t := string(errors.Type(errs[i]))
 			if t == "" || !doc[t] {
@@ -341,8 +342,10 @@ func (m c15) Exec(ctx *core.Ctx, cs *core.Case) {
 		}
 		ctx.Count("entries_checked")
 	}
-	if ok[3] && len(us[3].ValidationErrors()) > 0 {
-		ctx.Violate("fail mode accepted a URL although it recorded validation entries", 0, len(us[3].ValidationErrors()), firstErr(us[3].ValidationErrors()))
+	for _, i := range []int{3, 4} {
+		if ok[i] && len(us[i].ValidationErrors()) > 0 {
+			ctx.Violate("fail mode accepted a URL although it recorded validation entries", 0, len(us[i].ValidationErrors()), c15Names[i]+": "+firstErr(us[i].ValidationErrors()))
+		}
 	}
 }
 
